@@ -235,32 +235,12 @@ func checkC09(c *Check) {
 	}
 
 	// ---- R3
-	// the answer's header list is the answer's own: a response whose Headers share the backing array of a
-	// package-level slice is rewritten by whichever check appends next
-	nHdr := 0
-	for _, hf := range R.HandlerFuncs {
-		for _, b := range hf.Blocks {
-			for _, ins := range b.Instrs {
-				st, ok := ins.(*ssa.Store)
-				if !ok {
-					continue
-				}
-				fa, isF := st.Addr.(*ssa.FieldAddr)
-				if !isF || (fieldAddrID(fa) != idDenied+".Headers" && fieldAddrID(fa) != idOkHTTP+".Headers") {
-					continue
-				}
-				nHdr++
-				shared := sharesGlobalBacking(st.Val, 0)
-				c.Obl(!shared, "C09.R3", "headers-own-backing/"+fnKey(hf)+fmt.Sprintf("#%d", nHdr), P.Pos(st.Pos()), "the response's header list is built by appending to the response's own (initially empty) list",
-					"a response's Headers can share the backing array of a package-level slice: headers appended for one answer (Location, Set-Cookie) are overwritten by the next check's")
-			}
-		}
-	}
+	headersOwnBacking(c, "C09.R3", R)
 	// the discovered end-session endpoint is the one of this filter's own discovery document
 	discoveryCacheKeyRule(c, "C09.R3")
 	if answer != nil {
 		d := resolveCell(stripConv(answer.Common().Args[1]))
-		okLoc, okCookie := false, false
+		okLoc, okCookie, okName := false, false, false
 		for _, li := range callsToFn(pr, m.LocationWriter.Fn) {
 			if !sameVal(li.Common().Args[m.LocationWriter.DenyIdx], d) {
 				continue
@@ -276,9 +256,14 @@ func checkC09(c *Check) {
 			if isC && bc.Common().StaticCallee() == m.CookieBuilder {
 				t, isK := constInt(bc.Common().Args[2])
 				okCookie = isK && t == 0
+				// … and it is this filter's session cookie that is expired: the name is getCookieName(handler config)
+				nc, _, isN := asCall(resolveCell(stripConv(bc.Common().Args[0])))
+				okName = isN && nc.Common().StaticCallee() == R.CookieName && isHandlerConfig(nc.Common().Args[0])
 			}
 		}
 		c.Obl(okLoc, "C09.R3", "logout-location", P.Pos(answer.Pos()), "Location ← config.GetLogout().GetRedirectUri()", "the logout answer does not redirect to the configured logout redirect URI")
+		c.Obl(okName, "C09.R3", "logout-cookie-is-own-cookie", P.Pos(answer.Pos()), "the expired cookie is named by getCookieName(handler configuration)",
+			"the cookie the logout answer expires is not named by the filter's own cookie name: the real session cookie survives (and another filter's cookie may be expired instead)")
 		c.Obl(okCookie, "C09.R3", "logout-cookie-expired", P.Pos(answer.Pos()), "the session cookie is expired (timeout 0)", "the logout answer does not expire the session cookie")
 	}
 	lw := P.Func(pkgAuthz, "loadWellKnownConfig")
@@ -337,70 +322,7 @@ func checkC09(c *Check) {
 		c.Obl(refused, "C09.R3", "discovery/refused", P.Pos(lw.Pos()), "a missing end_session_endpoint is refused with ErrMissingLogoutRedirectURI", "a discovery document without end_session_endpoint is accepted although logout is configured without a redirect URI")
 	}
 
-	// ---- R5: the stores report a failed removal
-	sr, smissing := getStoreRoles(P)
-	if len(smissing) == 0 {
-		for _, m2 := range sr.redisMethods {
-			if m2.Name() != "RemoveSession" || m2.Parent() != nil {
-				continue
-			}
-			dels := redisCalls(m2, "Del")
-			okRem := len(dels) == 1
-			why := "RemoveSession does not issue exactly one DEL"
-			if okRem {
-				del := dels[0].(*ssa.Call)
-				for _, r := range returnsOf(m2) {
-					for _, l := range Leaves(r.Results[0], leafOpts{noConcat: true}) {
-						// acceptable: the DEL command's Err() result itself, or nil under Err() == nil
-						if ec, _, isC := asCall(l); isC && strings.HasSuffix(funcID(calleeOf(ec).Obj), ".Err") && dataDeps(ec.Common().Args[0])[del] {
-							continue
-						}
-						if isNilConst(l) {
-							okNil := false
-							for cond, pol := range FactsOf(m2).At(r) {
-								if bo, isB := cond.(*ssa.BinOp); isB && isNilConst(bo.Y) {
-									if ec, _, isC := asCall(resolveCell(bo.X)); isC && strings.HasSuffix(funcID(calleeOf(ec).Obj), ".Err") && dataDeps(ec.Common().Args[0])[del] {
-										if (bo.Op == token.EQL && pol) || (bo.Op == token.NEQ && !pol) {
-											okNil = true
-										}
-									}
-								}
-							}
-							if okNil {
-								continue
-							}
-							okRem, why = false, "RemoveSession can return nil without the DEL command's Err() being known nil: a failed removal is reported as success"
-							continue
-						}
-						if isErrorType(l.Type()) {
-							continue // some other error value
-						}
-					}
-				}
-			}
-			c.Obl(okRem, "C09.R5", "redis-remove-reports-failure", P.Pos(m2.Pos()), "Redis RemoveSession returns the DEL command's error", why)
-		}
-		for _, m2 := range sr.memMethods {
-			if m2.Name() != "RemoveSession" || m2.Parent() != nil {
-				continue
-			}
-			// the delete is unconditional: every return passes it
-			okDel := true
-			for _, r := range returnsOf(m2) {
-				if !mustPassBefore(m2, r, func(i ssa.Instruction) bool {
-					cc, ok := i.(*ssa.Call)
-					if !ok {
-						return false
-					}
-					bi, isB := cc.Call.Value.(*ssa.Builtin)
-					return isB && bi.Name() == "delete"
-				}) {
-					okDel = false
-				}
-			}
-			c.Obl(okDel, "C09.R5", "memory-remove-unconditional", P.Pos(m2.Pos()), "memory RemoveSession deletes the key on every path", "memory RemoveSession can return without deleting the session")
-		}
-	}
+	storesReportFailedRemoval(c, "C09.R5")
 
 	// ---- R4
 	nR4 := 0
@@ -484,4 +406,102 @@ func sharesGlobalBacking(v ssa.Value, depth int) bool {
 		}
 	}
 	return false
+}
+
+// storesReportFailedRemoval: the Redis store's RemoveSession returns the DEL command's error (nil only when
+// Err() is nil), the memory store deletes unconditionally. Filed under C09.R5 and C05.R2 (a presented
+// session that cannot be destroyed must stop the login redirect).
+func storesReportFailedRemoval(c *Check, rule string) {
+	P := c.P
+	sr, smissing := getStoreRoles(P)
+	if len(smissing) == 0 {
+		for _, m2 := range sr.redisMethods {
+			if m2.Name() != "RemoveSession" || m2.Parent() != nil {
+				continue
+			}
+			dels := redisCalls(m2, "Del")
+			okRem := len(dels) == 1
+			why := "RemoveSession does not issue exactly one DEL"
+			if okRem {
+				del := dels[0].(*ssa.Call)
+				for _, r := range returnsOf(m2) {
+					for _, l := range Leaves(r.Results[0], leafOpts{noConcat: true}) {
+						// acceptable: the DEL command's Err() result itself, or nil under Err() == nil
+						if ec, _, isC := asCall(l); isC && strings.HasSuffix(funcID(calleeOf(ec).Obj), ".Err") && dataDeps(ec.Common().Args[0])[del] {
+							continue
+						}
+						if isNilConst(l) {
+							okNil := false
+							for cond, pol := range FactsOf(m2).At(r) {
+								if bo, isB := cond.(*ssa.BinOp); isB && isNilConst(bo.Y) {
+									if ec, _, isC := asCall(resolveCell(bo.X)); isC && strings.HasSuffix(funcID(calleeOf(ec).Obj), ".Err") && dataDeps(ec.Common().Args[0])[del] {
+										if (bo.Op == token.EQL && pol) || (bo.Op == token.NEQ && !pol) {
+											okNil = true
+										}
+									}
+								}
+							}
+							if okNil {
+								continue
+							}
+							okRem, why = false, "RemoveSession can return nil without the DEL command's Err() being known nil: a failed removal is reported as success"
+							continue
+						}
+						if isErrorType(l.Type()) {
+							continue // some other error value
+						}
+					}
+				}
+			}
+			c.Obl(okRem, rule, "redis-remove-reports-failure", P.Pos(m2.Pos()), "Redis RemoveSession returns the DEL command's error", why)
+		}
+		for _, m2 := range sr.memMethods {
+			if m2.Name() != "RemoveSession" || m2.Parent() != nil {
+				continue
+			}
+			// the delete is unconditional: every return passes it
+			okDel := true
+			for _, r := range returnsOf(m2) {
+				if !mustPassBefore(m2, r, func(i ssa.Instruction) bool {
+					cc, ok := i.(*ssa.Call)
+					if !ok {
+						return false
+					}
+					bi, isB := cc.Call.Value.(*ssa.Builtin)
+					return isB && bi.Name() == "delete"
+				}) {
+					okDel = false
+				}
+			}
+			c.Obl(okDel, rule, "memory-remove-unconditional", P.Pos(m2.Pos()), "memory RemoveSession deletes the key on every path", "memory RemoveSession can return without deleting the session")
+		}
+	}
+
+}
+
+// headersOwnBacking: no response's Headers share the backing array of a package-level slice (headers appended
+// for one answer would be overwritten by the next check's). Filed under C09.R3, C03.R3, C05.R5, C13.R4, C16.R4.
+func headersOwnBacking(c *Check, rule string, R *Roles) {
+	P := c.P
+	// the answer's header list is the answer's own: a response whose Headers share the backing array of a
+	// package-level slice is rewritten by whichever check appends next
+	nHdr := 0
+	for _, hf := range R.HandlerFuncs {
+		for _, b := range hf.Blocks {
+			for _, ins := range b.Instrs {
+				st, ok := ins.(*ssa.Store)
+				if !ok {
+					continue
+				}
+				fa, isF := st.Addr.(*ssa.FieldAddr)
+				if !isF || (fieldAddrID(fa) != idDenied+".Headers" && fieldAddrID(fa) != idOkHTTP+".Headers") {
+					continue
+				}
+				nHdr++
+				shared := sharesGlobalBacking(st.Val, 0)
+				c.Obl(!shared, rule, "headers-own-backing/"+fnKey(hf)+fmt.Sprintf("#%d", nHdr), P.Pos(st.Pos()), "the response's header list is built by appending to the response's own (initially empty) list",
+					"a response's Headers can share the backing array of a package-level slice: headers appended for one answer (Location, Set-Cookie) are overwritten by the next check's")
+			}
+		}
+	}
 }
